@@ -200,6 +200,12 @@ class SpanWrappingMatcher(wrappers.WrappingMatcher):
         m._spans = self._spans
         return m
 
+    def reset(self):
+        self.child.reset()
+        self._spans = None
+        if self.is_active():
+            self._find_next()
+
     def _replacement(self, newchild):
         return self.__class__(newchild)
 
